@@ -35,17 +35,20 @@ GoJudge(hist, p, EV, sm, d, plain, rp, got, child, line) ==
       c == Ev.contempt
       repOk == got.kind = "cp" /\ got.v \in {ToString(c), ToString(-c)}
       mateN == IF got.kind = "mate" /\ Ch(got.v, 1) # "-" THEN ParseNat(got.v) ELSE 0
+      \* a move-less root, or searchmoves none of which is legal (the property is silent on that): nothing to compare
+      terminal == Legal(p) = {} \/ (sm # {} /\ \A m \in Legal(p) : Uci(m) \notin sm)
   IN /\ Record(
          << <<Len(hist) = Len(Ev.moves) + 1, Prop, "machinery: the case's move history is not legal", "">>,
             <<Ev.st = "ok", "C07", "no bestmove for go depth " \o ToString(d), "bestmove">>,
-            <<Ev.depth_seen = d, Prop, "last scored info has depth " \o ToString(Ev.depth_seen), ToString(d)>>,
+            <<Legal(p) = {} => (Ev.best = "none" /\ got.kind = "none"), "C07", "a move-less root must be answered with the null move and no score", "none">>,
+            <<terminal \/ Ev.depth_seen = d, Prop, "last scored info has depth " \o ToString(Ev.depth_seen), ToString(d)>>,
             <<~missing \/ isRep, Prop, "a position of the legal depth-" \o ToString(d) \o " tree (with capture resolution) was not visited by the implementation's own tree walk",
               IF missing /\ ~isRep THEN ToString(Keys(p, d) \ EV.d) ELSE "">>,
             <<isRep => repOk, "C10", "line reaching a threefold repetition must be scored as a draw (+- contempt " \o ToString(c) \o "): " \o ScoreStr(got),
               "cp " \o ToString(c)>>,
-            <<(~isRep /\ ~missing) => got = exp, IF Ev.mode \in {"rep", "fifty"} THEN "C10" ELSE Prop,
+            <<(~isRep /\ ~missing /\ ~terminal) => got = exp, IF Ev.mode \in {"rep", "fifty"} THEN "C10" ELSE Prop,
               "score " \o ScoreStr(got) \o " of go depth " \o ToString(d) \o " on " \o RenderFen(p) \o " differs from the minimax value", ScoreStr(exp)>>,
-            <<(~isRep /\ ~missing /\ got = exp) => (IF plain THEN Ev.best \in rp[2] ELSE AttainsAB(EV, p, d, Ev.best, v)), Prop,
+            <<(~isRep /\ ~missing /\ ~terminal /\ got = exp) => (IF plain THEN Ev.best \in rp[2] ELSE AttainsAB(EV, p, d, Ev.best, v)), Prop,
               "bestmove " \o Ev.best \o " does not attain the minimax value " \o ScoreStr(exp), IF plain THEN ToString(rp[2]) ELSE "">>,
             <<Len(line) = Len(Ev.pv) + 1 /\ (Ev.pv # <<>> => Ev.pv[1] = Ev.best), Prop, "principal variation is not a legal line starting with the best move: " \o ToString(Ev.pv), "">>,
             <<mateN > 0 => (Len(Ev.pv) = 2 * mateN - 1 /\ Len(line) = Len(Ev.pv) + 1 /\ IsMate(line[Len(line)])), Prop,
